@@ -484,7 +484,8 @@ impl World {
                 .ix(
                     fee_tier_index,
                     tick_spacing,
-                    Pubkey::default(),
+                    // a trade-enable timestamp is only allowed on permissioned tiers
+                    if trade_enable_timestamp.is_some() { ADMIN } else { Pubkey::default() },
                     Pubkey::default(),
                     base_fee_rate,
                     consts.0,
